@@ -84,6 +84,18 @@ func evalC04(h *hz.H, sp *enum.Space, c enum.Case, b bounds, replayDet *bool, au
 			h.Violate(caseKey("C04", "methods-size-mismatch", sp, c), fmt.Sprintf("%s (det=%v): ProtoMethods().Size=%d, reference size=%d", sp.Label(c), det, so.Size, refSize), vc)
 			continue
 		}
+		// route 0: Size, then Marshal with UseCachedSize (what gRPC's codec does): same bytes
+		{
+			var enc2 []byte
+			var err2 error
+			if p := hz.Catch(func() {
+				mo.Size(g)
+				enc2, err2 = proto.MarshalOptions{Deterministic: det, UseCachedSize: true}.Marshal(g)
+			}); p != nil || err2 != nil || len(enc2) != refSize || det && !bytes.Equal(enc2, enc) {
+				h.Violate(caseKey("C04", "use-cached-size", sp, c), fmt.Sprintf("%s (det=%v): Size then Marshal{UseCachedSize} gives %x (err %v, panic %v); Marshal gives %x", sp.Label(c), det, clip(enc2), err2, p, clip(enc)), vc)
+				continue
+			}
+		}
 		names, bufs := prefixes(len(enc))
 		for pi, pre := range bufs {
 			saved := append([]byte(nil), pre...)
